@@ -51,7 +51,7 @@ pub fn run(args: &Args) {
     let mut tr = Tr::create(&args.out);
     let mut rng = Rng::new(args.seed ^ 0x18);
     let plan: Vec<Value> = std::fs::read_to_string(args.plan.as_ref().expect("--plan")).unwrap().lines().map(|l| serde_json::from_str(l).unwrap()).collect();
-    let nchains = if args.thorough { 40 } else { 8 };
+    let nchains = if args.thorough { 40 } else { 12 };
     let n_grid = 512;
     for fu in functionals(false) {
         if !["PcSaft/propane", "PcSaft/butane+pentane", "GcPcSaft/butane", "Pets", "FMT(WhiteBear)"].contains(&fu.name.as_str()) { continue; }
